@@ -83,20 +83,23 @@ Section Wallet.
   (** AccountData (the fields AccountMetadata shows; Key+Salt are [a_blob]) *)
   Record acct := {
     a_addr : string; a_label : string; a_pub : string; a_sch : N; a_alg : N; a_curve : string;
+    a_hash : string;   (* ProtectedKey.Hash: carried along, never interpreted *)
     a_default : bool; a_blob : blob }.
 
   Definition with_label (x : acct) (l : string) : acct :=
     {| a_addr := a_addr x; a_label := l; a_pub := a_pub x; a_sch := a_sch x; a_alg := a_alg x;
-       a_curve := a_curve x; a_default := a_default x; a_blob := a_blob x |}.
+       a_curve := a_curve x; a_hash := a_hash x; a_default := a_default x; a_blob := a_blob x |}.
   Definition with_default (x : acct) (d : bool) : acct :=
     {| a_addr := a_addr x; a_label := a_label x; a_pub := a_pub x; a_sch := a_sch x; a_alg := a_alg x;
-       a_curve := a_curve x; a_default := d; a_blob := a_blob x |}.
+       a_curve := a_curve x; a_hash := a_hash x; a_default := d; a_blob := a_blob x |}.
   Definition with_sch (x : acct) (s : N) : acct :=
     {| a_addr := a_addr x; a_label := a_label x; a_pub := a_pub x; a_sch := s; a_alg := a_alg x;
-       a_curve := a_curve x; a_default := a_default x; a_blob := a_blob x |}.
+       a_curve := a_curve x; a_hash := a_hash x; a_default := a_default x; a_blob := a_blob x |}.
+  (** AccountData.SetKeyPair with a key ChangePassword has just re-encrypted: the new ProtectedKey
+      has no Hash (EncryptWithCustomScrypt does not set one) *)
   Definition with_blob (x : acct) (b : blob) : acct :=
     {| a_addr := a_addr x; a_label := a_label x; a_pub := a_pub x; a_sch := a_sch x; a_alg := a_alg x;
-       a_curve := a_curve x; a_default := a_default x; a_blob := b |}.
+       a_curve := a_curve x; a_hash := ""; a_default := a_default x; a_blob := b |}.
 
   (** ClientImpl *)
   Record wallet := {
@@ -187,7 +190,7 @@ Section Wallet.
     if String.eqb pwd "" then (w, EEmptyPwd)
     else
       let x := {| a_addr := ki_addr ki; a_label := label; a_pub := ki_pub ki; a_sch := sch;
-                  a_alg := ki_alg ki; a_curve := ki_curve ki; a_default := false;
+                  a_alg := ki_alg ki; a_curve := ki_curve ki; a_hash := ""; a_default := false;
                   a_blob := enc (newacct_params w, ki_addr ki) pwd (ki_key ki) |} in
       match add_account_data w x with
       | (w', ROk) => (w', RKey (ki_key ki))
@@ -196,11 +199,13 @@ Section Wallet.
 
   (** ImportAccount: the caller hands over an already encrypted key; the model records how it was
       made (parameters, password, key) so that the blob is [enc (prm, addr) pwd k]. *)
-  Definition import_account (w : wallet) (label addr pub : string) (sch alg : N) (curve : string)
+  Definition import_account (w : wallet) (label addr pub : string) (sch alg : N) (curve hash : string)
+             (isdef : bool)   (* AccountMetadata.IsDefault of the caller's record: NOT carried over *)
              (prm : scrypt) (pwd : string) (k : key) : wallet * res :=
     let label' := match get_meta_by_label w label with Some _ => label ++ "_1" | None => label end in
     add_account_data w {| a_addr := addr; a_label := label'; a_pub := pub; a_sch := sch; a_alg := alg;
-                          a_curve := curve; a_default := false; a_blob := enc (prm, addr) pwd k |}.
+                          a_curve := curve; a_hash := hash; a_default := false;
+                          a_blob := enc (prm, addr) pwd k |}.
 
   Definition addr_is (h : list acct) (a : string) (id : nat) : bool :=
     match nth_error h id with Some x => String.eqb (a_addr x) a | None => false end.
@@ -313,7 +318,7 @@ Section Wallet.
 
   Inductive op :=
   | ONew (label : string) (sch : N) (pwd : string) (ki : keyinfo)
-  | OImport (label addr pub : string) (sch alg : N) (curve : string) (prm : scrypt) (pwd : string) (k : key)
+  | OImport (label addr pub : string) (sch alg : N) (curve hash : string) (isdef : bool) (prm : scrypt) (pwd : string) (k : key)
   | ODelete (addr pwd : string)
   | OSetDefault (addr : string)
   | OSetLabel (addr label : string)
@@ -324,7 +329,8 @@ Section Wallet.
   Definition step (w : wallet) (o : op) : wallet * res :=
     match o with
     | ONew label sch pwd ki => new_account w label sch pwd ki
-    | OImport label addr pub sch alg curve prm pwd k => import_account w label addr pub sch alg curve prm pwd k
+    | OImport label addr pub sch alg curve hash isdef prm pwd k =>
+        import_account w label addr pub sch alg curve hash isdef prm pwd k
     | ODelete addr pwd => delete_account w addr pwd
     | OSetDefault addr => set_default_account w addr
     | OSetLabel addr label => set_label w addr label
@@ -341,7 +347,7 @@ Section Wallet.
   Definition gstep (g : ghost) (o : op) (r : res) : ghost :=
     match o, r with
     | ONew _ _ pwd ki, RKey _ => mset (ki_addr ki) (ki_key ki, pwd) g
-    | OImport _ addr _ _ _ _ _ pwd k, ROk => mset addr (k, pwd) g
+    | OImport _ addr _ _ _ _ _ _ _ pwd k, ROk => mset addr (k, pwd) g
     | ODelete addr _, RKey _ => mdel addr g
     | OChangePwd addr old new, ROk =>
       if String.eqb old new then g
@@ -376,13 +382,13 @@ Section Wallet.
   Definition op_caller_ok (w : wallet) (o : op) : Prop :=
     match o with
     | ONew _ _ _ ki => get_meta_by_address w (ki_addr ki) = None
-    | OImport _ _ _ _ _ _ prm pwd _ => prm = open_params w /\ pwd <> ""
+    | OImport _ _ _ _ _ _ _ _ prm pwd _ => prm = open_params w /\ pwd <> ""
     | _ => True
     end.
   Definition in_finding_class (w : wallet) (o : op) : bool :=
     match o with
     | ONew _ _ _ _ => negb (scrypt_eqb (newacct_params w) (open_params w))
-    | OImport _ addr _ _ _ _ _ _ _ => match get_meta_by_address w addr with Some _ => true | None => false end
+    | OImport _ addr _ _ _ _ _ _ _ _ _ => match get_meta_by_address w addr with Some _ => true | None => false end
     | OChangePwd _ old new =>
         (String.eqb new "" && negb (String.eqb old "")) || negb (scrypt_eqb (chpwd_params w) (open_params w))
     | _ => false
